@@ -402,6 +402,36 @@ def run_v1(ctx: C.Ctx):
             pend.append((case2, out2, built))
         finally:
             built.close()
+    # ---- a tagged class without any constructor field, loaded directly from a document that holds just its tag
+    for jj, tk in enumerate([None, 'kind']):
+        i = v1streams.OFFSET + n + jj
+        if ctx.done(i):
+            break
+        nm = v1streams.Namer(n + jj)
+        meta = {'v1': True, 'tag': 'only', 'v1_on_unknown_key': 'RAISE'}
+        if tk:
+            meta['tag_key'] = tk
+        ty = {'k': 'cls', 'info': {'name': nm('B'), 'fields': [{'name': 'computed_n', 'dflt': ['lit', 3], 'factory': False, 'init': False}],
+                                   'wizard': True, 'meta': meta}, 'ftys': [['computed_n', T('int')]]}
+        built = model.Built(ty)
+        try:
+            if not ctx.begin_case(i):
+                continue
+            doc = {tk or '__tag__': 'only'}
+            case = {'ty': ty, 'doc': repr(doc), 'engine': 'v1', 'probe': 'tag-only-class'}
+            ctx.seen('tagged:v1:tag-only-class', case)
+            out = load_outcome(lambda: fromdict(built.root, dict(doc)))
+            if out[0] == 'err':
+                e = out[1]
+                key = 'v1-tag-only-class' if isinstance(e, UnknownKeysError) and not v1streams.unknown_keys_of(e) else None
+                ctx.fail('tagged:v1:tag-only-class', case, f'a tagged class without constructor fields rejects a document holding just its tag: '
+                         f'{type(e).__name__} naming {getattr(e, "unknown_keys", None)!r}', key=key, detail=dict(src=built.source))
+            st = model.StdTables()
+            st.add_json(doc)
+            reqs.append({'op': 'loadv1', 'ty': model.enc_ty(ty), 'doc': model.enc_j(doc), 'std': st.build()})
+            pend.append((case, out, built))
+        finally:
+            built.close()
     if ctx.model_available:
         outs = ctx.driver.run(reqs)
         for (case, out, built), o_ in zip(pend, outs):
